@@ -136,7 +136,7 @@ func DecodeSenc(hdr BoxHeader, startPos uint64, r io.Reader) (Box, error) {
 		StartPos:         startPos,
 		SampleCount:      sampleCount,
 		readButNotParsed: true,
-		readBoxSize:      hdr.Size,
+		readBoxSize:      uint64(boxHeaderSize + hdr.payloadLen()), // written back with a normal 8-byte header
 	}
 
 	if flags&UseSubSampleEncryption != 0 && (len(senc.rawData) < 2*int(sampleCount)) {
@@ -177,7 +177,7 @@ func DecodeSencSR(hdr BoxHeader, startPos uint64, sr bits.SliceReader) (Box, err
 		StartPos:         startPos,
 		SampleCount:      sampleCount,
 		readButNotParsed: true,
-		readBoxSize:      hdr.Size,
+		readBoxSize:      uint64(boxHeaderSize + hdr.payloadLen()), // written back with a normal 8-byte header
 	}
 
 	if senc.SampleCount == 0 || len(senc.rawData) == 0 {
